@@ -46,6 +46,13 @@ def plan(tier, seed):
     shapes = [("chain", 30), ("unused", 12), ("random", 25)]
     for k, (sh, n) in enumerate(shapes):
         specs.append({"klass": "shape", "i": k, "shape": sh, "n_inter": n})
+    from . import c12
+
+    for k, h in enumerate(c12.HAND):
+        # full-size outputs also when unused definitions (and states nothing reads) are removed from the code
+        specs.append({"klass": "remove_unused", "i": k, "text": h, "remove_unused": True})
+    for k in range(6 if tier == "quick" else 60):
+        specs.append({"klass": "remove_unused", "i": 10 + k, "shape": "unused", "n_inter": 10, "remove_unused": True})
     specs.append({"klass": "noparams", "i": 0, "n_params": 0})
     specs.append({"klass": "noparams", "i": 1, "n_params": 0})
     specs.append({"klass": "manymonitor", "i": 0})
@@ -85,7 +92,7 @@ def expected(ref, pt, res, fn, dt, stiff):
     return out, "state"
 
 
-def check_model(text, rng, want=5, tier="quick"):
+def check_model(text, rng, want=5, tier="quick", remove_unused=False):
     import jax
 
     out = {"violations": [], "counters": {}, "evaluations": 0, "nontrivial": False, "status": "held"}
@@ -105,9 +112,10 @@ def check_model(text, rng, want=5, tier="quick"):
     ode = lo.value
     stiff = sorted(ref.states)[::2]
     fns = ["rhs", "monitor_values"] + SCHEMES
-    co = B.generate("jax", ode, schemes=SCHEMES, delta=DELTA, stiff_states=stiff)
+    ru = {"remove_unused": True} if remove_unused else {}
+    co = B.generate("jax", ode, schemes=SCHEMES, delta=DELTA, stiff_states=stiff, **ru)
     if not co.ok:
-        co2 = B.generate("jax", ode, schemes=["explicit_euler"])
+        co2 = B.generate("jax", ode, schemes=["explicit_euler"], **ru)
         if not co2.ok:
             out["status"] = "violated"
             out["violations"].append({"kind": "codegen_raises", "detail": {"exc": co.describe(), "site": C.trace_site(co.exc, 4)}})
@@ -218,7 +226,7 @@ def run_case(spec, ctx):
     rng = C.rng_for(spec)
     text = case_text(spec, rng)
     tier = spec.get("tier", "quick")
-    out = check_model(text, rng, want=5 if tier == "quick" else 10, tier=tier)
+    out = check_model(text, rng, want=5 if tier == "quick" else 10, tier=tier, remove_unused=bool(spec.get("remove_unused")))
     if spec.get("exprs") and not spec.get("text") and any(v["kind"] in ("codegen_raises", "raises", "exec_fails") for v in out["violations"]):
         vs, okc = [], 0
         for e in spec["exprs"]:
